@@ -270,6 +270,153 @@ CLAUSE_DIRECTIONS = {
     "C17-escape-only-mapping-arg": {"extra"},
 }
 
+
+# ---------------------------------------------------------------------------
+# str.format: encoding, implementation side, oracle
+
+PERR_KINDS = [
+    ("expected '}' before end of string", "PExpectedClose"),
+    ("single '}' encountered", "PSingleClose"),
+    ("expected one of ':', '}'", "PExpectedOneOfTwo"),
+    ("expected one of", "PExpectedOneOfAll"),
+    ("invalid attribute", "PInvalidAttribute"),
+    ("expected ']' before end of string", "PExpectedBracket"),
+    ("Unknown conversion specifier", "PUnknownConversion"),
+    ("unexpected '{' in field name", "PUnexpectedOpen"),
+]
+FERR_KINDS = [
+    ("Too few arguments", "FTooFew"),
+    ("Numbered argument(s)", "FUnusedNumbered"),
+    ("Numbered argument", "FOutOfRange"),
+    ("Named argument(s)", "FUnusedNamed"),
+    ("Named argument", "FNotGiven"),
+]
+FORMAT_LINT = {"FUnusedNumbered", "FUnusedNamed"}
+
+
+def enc_format_case(t, args, kwargs):
+    return f"F {enc_codes(t)} {len(args)} {len(kwargs)} " + " ".join(enc_codes(k) for k in kwargs)
+
+
+def s_field(f):
+    from pyanalyze.format_strings import IndexOrAttribute
+
+    if f.arg_name is None:
+        n = "auto"
+    elif isinstance(f.arg_name, int):
+        n = "#" + str(f.arg_name)
+    else:
+        n = "n" + s_codes(f.arg_name)
+    path = "".join(("[" if k is IndexOrAttribute.index else ".") + s_codes(v) for k, v in f.index_attribute)
+    return n + "/" + path + "/" + ("-" if f.conversion is None else str(ord(f.conversion)))
+
+
+class _FakeVisitor:
+    in_union_decomposition = False
+
+
+class _FakeCtx:
+    def __init__(self, vars):
+        self.vars = vars
+        self.visitor = _FakeVisitor()
+        self.errors = []
+
+    def show_error(self, message, error_code=None, **kw):
+        self.errors.append((message, getattr(error_code, "name", str(error_code))))
+
+
+def impl_format(t, args, kwargs):
+    """-> (canonical string, list of kinds shown by _str_format_impl, inferred type)"""
+    from pyanalyze.format_strings import parse_format_string
+    from pyanalyze.implementation import _str_format_impl
+    from pyanalyze.value import KnownValue
+
+    try:
+        parsed, errors = parse_format_string(t)
+        out = "fields=" + (";".join(s_field(f) for f in parsed.iter_replacement_fields()) or "none")
+        out += " errs=" + (",".join(f"{p}:{kind_of(m, PERR_KINDS)}" for p, m in errors) or "none")
+        c = _FakeCtx({"self": KnownValue(t), "args": KnownValue(tuple(args)), "kwargs": KnownValue(dict(kwargs))})
+        v = _str_format_impl(c)
+        typ = getattr(getattr(v, "typ", None), "__name__", repr(v))
+        if errors:
+            kinds = ["parse:" + kind_of(m, PERR_KINDS) for m, _ in c.errors]
+        else:
+            kinds = [kind_of(m, FERR_KINDS) for m, _ in c.errors]
+        if any(code != "incompatible_call" for _, code in c.errors):
+            kinds.append("WRONGCODE")
+        out += " check=" + (",".join(kinds) or "none")
+        return out, kinds, typ
+    except Exception as ex:
+        return f"CRASH {type(ex).__name__}: {ex}", None, None
+
+
+def cpython_format(t, args, kwargs):
+    try:
+        r = t.format(*args, **kwargs)
+        return ("ok", type(r).__name__)
+    except Exception as ex:
+        return ("raise", type(ex).__name__)
+
+
+FORMAT_CLAUSE_DIRECTIONS = {
+    "C17-format-auto-manual-mix": {"missed"},
+    "C17-format-field-path": {"missed", "extra"},
+    "C17-format-spec-not-validated": {"missed"},
+}
+
+
+def guards_format(t, m):
+    g = set()
+    if m.get("mix") == "1":
+        g.add("C17-format-auto-manual-mix")
+    fields = [] if m.get("fields") in (None, "none") else m["fields"].split(";")
+    pyf = [] if m.get("pyparse") in (None, "none", "RAISE", "FUEL") else m["pyparse"].split(";")
+    if any(f.split("/")[1] for f in fields + pyf):
+        g.add("C17-format-field-path")
+    if ":" in t or "!" in t:
+        g.add("C17-format-spec-not-validated")
+    return g
+
+
+F_ALPHABET = "{}0a.[]!r:x"
+
+
+def exhaustive_format_templates(maxlen):
+    for n in range(0, maxlen + 1):
+        for tup in itertools.product(F_ALPHABET, repeat=n):
+            yield "".join(tup)
+
+
+F_ARG_POOL = [1, "s", 2.5, [1, 2], {"k": 1}, 1j, None, True, (1, 2), b"x"]
+
+
+def gen_format_structured(rng):
+    nfields = rng.choice([0, 1, 1, 2, 2, 3])
+    parts = []
+    mode = rng.choice(["auto", "manual", "named", "mixed"])
+    for i in range(nfields):
+        parts.append(rng.choice(["", "", "a", " ", "{{", "}}", "x="]))
+        m = mode if mode != "mixed" else rng.choice(["auto", "manual", "named"])
+        if m == "auto":
+            name = ""
+        elif m == "manual":
+            name = str(rng.choice([0, 0, 1, 2, 3, 10]))
+        else:
+            name = rng.choice(["a", "b", "w", "zz", "a b", "0a"])
+        path = ""
+        if rng.random() < 0.25:
+            path = rng.choice([".real", "[0]", ".nope", "[k]", ".a.b", "[0][1]", ".", "[", "[0]x", ".1"])
+        conv = rng.choice(["", "", "", "!r", "!s", "!a", "!x", "!"])
+        spec = rng.choice(["", "", "", ":", ":>5", ":{}", ":{w}", ":d", ":{:{}}", ":{0}", ":5.2f", ":{{"])
+        close = "" if rng.random() < 0.04 else "}"
+        parts.append("{" + name + path + conv + spec + close)
+    parts.append(rng.choice(["", "", "z", "}", "{", "}}"]) if rng.random() < 0.3 else "")
+    t = "".join(parts)
+    nargs = rng.choice([0, 1, 1, 2, 3])
+    args = [rng.choice(F_ARG_POOL) for _ in range(nargs)]
+    kwargs = {k: rng.choice(F_ARG_POOL) for k in rng.sample(["a", "b", "w", "zz"], rng.choice([0, 0, 1, 2]))}
+    return t, args, kwargs
+
 # ---------------------------------------------------------------------------
 # generators
 
@@ -458,6 +605,72 @@ def enc_case(x):
     return x
 
 
+def src_literal(o):
+    """Python source of a literal argument, or None when it has none (inf/nan)."""
+    if isinstance(o, float) and not math.isfinite(o):
+        return None
+    if isinstance(o, (tuple, list)):
+        parts = [src_literal(x) for x in o]
+        if any(p is None for p in parts):
+            return None
+        if isinstance(o, tuple):
+            return "(" + ", ".join(parts) + ("," if len(parts) == 1 else "") + ")"
+        return "[" + ", ".join(parts) + "]"
+    if isinstance(o, dict):
+        parts = [(src_literal(k), src_literal(v)) for k, v in o.items()]
+        if any(a is None or b is None for a, b in parts):
+            return None
+        return "{" + ", ".join(f"{a}: {b}" for a, b in parts) + "}"
+    return repr(o)
+
+
+def end_to_end(cases, direct):
+    """Run a sample of the cases through the real checker (NameCheckVisitor on a
+    module with one statement per case) and compare 'reported at all' with the
+    direct calls.  Returns (n_checked, mismatches)."""
+    import io
+    import contextlib
+    from pyanalyze.test_name_check_visitor import TestNameCheckVisitorBase
+    from pyanalyze.error_code import ErrorCode
+
+    lines = ["def f():"]
+    index = {}
+    for ci, c in cases:
+        if c[0] == "percent":
+            a = src_literal(c[2])
+            if a is None:
+                continue
+            if isinstance(c[2], tuple) or isinstance(c[2], dict):
+                expr = f"{c[1]!r} % {a}"
+            else:
+                expr = f"{c[1]!r} % ({a})"
+        else:
+            parts = [src_literal(x) for x in c[2]] + [f"{k}={src_literal(v)}" for k, v in c[3].items()]
+            if any(p is None or p.endswith("=None") and False for p in parts):
+                continue
+            expr = f"{c[1]!r}.format({', '.join(parts)})"
+        if "\n" in expr:
+            continue
+        lines.append(f"    _ = {expr}")
+        index[len(lines)] = ci
+    code = "\n".join(lines) + "\n"
+    buf = io.StringIO()
+    with contextlib.redirect_stderr(buf), contextlib.redirect_stdout(buf):
+        errs = TestNameCheckVisitorBase()._run_str(code, fail_after_first=False, settings={ErrorCode.use_fstrings: False, ErrorCode.duplicate_dict_key: False})
+    by_line = {}
+    for e in errs:
+        by_line.setdefault(e["lineno"], []).append(e["code"].name)
+    mismatches = []
+    for ln, ci in index.items():
+        codes = by_line.get(ln, [])
+        want = direct[ci]
+        got = any(c in ("bad_format_string", "incompatible_call") for c in codes)
+        other = [c for c in codes if c not in ("bad_format_string", "incompatible_call")]
+        if got != want or other:
+            mismatches.append((ci, lines[ln - 1].strip(), codes, want))
+    return len(index), mismatches
+
+
 def run(tier: str, replay: str | None = None):
     rep = lib.Report(PROP, tier, "proof")
     rng = random.Random(lib.seed() * 7919 + 17)
@@ -472,28 +685,33 @@ def run(tier: str, replay: str | None = None):
     if gen is not None:
         proof = lib.prove(PROP, gen, thorough=(tier == "thorough"))
 
-    # 2. cases: (kind, template, args, full)
+    # 2. cases: ("percent", template, args, _) | ("format", template, args, kwargs)
     cases = []
     if replay:
         r = json.loads(Path(replay).read_text())
         c = dec_case(r["input"])
-        cases.append(("percent", c["template"], c["args"], True))
+        if c.get("kind", "percent") == "percent":
+            cases.append(("percent", c["template"], c["args"], True))
+        else:
+            cases.append(("format", c["template"], c["args"], c["kwargs"]))
     else:
         for c in load_corpus():
             c = dec_case(c)
             if c.get("kind", "percent") == "percent":
                 cases.append(("percent", c["template"], c["args"], True))
-        n_struct = 2500 if tier == "quick" else 25000
+            else:
+                cases.append(("format", c["template"], c["args"], c["kwargs"]))
+        n_struct = 4000 if tier == "quick" else 40000
         for _ in range(n_struct):
             t, a = gen_structured(rng)
             cases.append(("percent", t, a, True))
-        maxlen = 3 if tier == "quick" else 5
+        maxlen = 4 if tier == "quick" else 5
         scan_args = [(), (1,), {"a": 1}, 1]
         for i, t in enumerate(exhaustive_templates(maxlen)):
             cases.append(("percent", t, scan_args[i % 4], False))
-            if all(ord(c) < 128 for c in t):
+            if tier == "thorough" or len(t) <= 3:
                 cases.append(("percent", t.encode("ascii"), scan_args[(i + 1) % 4], False))
-        n_rand = 4000 if tier == "quick" else 60000
+        n_rand = 6000 if tier == "quick" else 80000
         for _ in range(n_rand):
             t = random_template_chars(rng, rng.choice([4, 5, 6, 7, 8, 10]))
             a = rng.choice(scan_args + [(1, 1), {"a": 1, "b": "x"}])
@@ -502,7 +720,19 @@ def run(tier: str, replay: str | None = None):
                     t = t.encode("ascii")
                 except UnicodeEncodeError:
                     pass
-            cases.append(("percent", t, a, rng.random() < 0.3))
+            cases.append(("percent", t, a, True))
+        # str.format
+        for _ in range(3000 if tier == "quick" else 30000):
+            t, args, kwargs = gen_format_structured(rng)
+            cases.append(("format", t, args, kwargs))
+        fargs = [([], {}), ([1], {}), ([1, "s"], {}), ([1], {"a": 2}), ([], {"a": [1, 2]})]
+        for i, t in enumerate(exhaustive_format_templates(4 if tier == "quick" else 5)):
+            args, kwargs = fargs[i % len(fargs)]
+            cases.append(("format", t, args, kwargs))
+        for _ in range(3000 if tier == "quick" else 40000):
+            t = "".join(rng.choice(F_ALPHABET * 2 + " 1b٣\n") for _ in range(rng.choice([5, 6, 7, 8, 10])))
+            args, kwargs = rng.choice(fargs)
+            cases.append(("format", t, args, kwargs))
 
     # 3. model
     model_ok = proof is not None and not any("build failed" in b for b in proof.broken)
@@ -510,7 +740,7 @@ def run(tier: str, replay: str | None = None):
     if model_ok:
         try:
             exe = lib.ocaml_build("c17", "theories/Extract/ExtractC17.v", "c17_driver.ml")
-            model_lines = lib.ocaml_run(exe, [enc_percent_case(t, a) for (_, t, a, _) in cases])
+            model_lines = lib.ocaml_run(exe, [enc_percent_case(c[1], c[2]) if c[0] == "percent" else enc_format_case(c[1], c[2], c[3]) for c in cases])
         except RuntimeError as ex:
             rep.violation({"kind": "broken-correspondence", "correspondence": "extracted model (ocaml) failed to build/run", "detail": str(ex)[-1500:]}, no_failing_input=True)
 
@@ -518,68 +748,120 @@ def run(tier: str, replay: str | None = None):
     corr_mismatch = []
     spec_mismatch = []
     failing = []
-    hist = {"verdicts": {}, "args_kind": {}, "template_len": {}, "is_bytes": {0: 0, 1: 0}, "lint_only": 0, "known": {}}
+    hist = {"percent": {"verdicts": {}, "args_kind": {}, "template_len": {}, "is_bytes": {0: 0, 1: 0}},
+            "format": {"verdicts": {}, "spec_verdicts": {}, "template_len": {}},
+            "lint_only": 0, "known": {}}
     distinct = set()
     validated = 0
+    spec_validated = 0
     type_checked = 0
-    for i, (kind, t, a, full) in enumerate(cases):
-        is_bytes = isinstance(t, bytes)
-        impl_line, lint, acc, typ = impl_percent(t, a, full=True)
-        py = cpython_percent(t, a) if safe_for_cpython(t) and safe_args(t, a) else ("skipped", "")
-        hist["is_bytes"][int(is_bytes)] += 1
-        hist["template_len"][min(len(t), 12)] = hist["template_len"].get(min(len(t), 12), 0) + 1
-        ak = "tuple" if isinstance(a, tuple) else "dict" if isinstance(a, dict) else "scalar"
-        hist["args_kind"][ak] = hist["args_kind"].get(ak, 0) + 1
-        m = None
-        if model_lines is not None:
-            ml = model_lines[i]
-            m = model_fields(ml)
-            model_part = ml.split(" pyscan=")[0]
-            if impl_line != model_part:
-                corr_mismatch.append((i, impl_line, ml))
-            else:
-                validated += 1
-            if py[0] in ("ok", "raise") and m.get("pyraises") is not None:
-                if (py[0] == "raise") != (m["pyraises"] == "1"):
+    direct_reported = {}
+    for i, c in enumerate(cases):
+        kind, t = c[0], c[1]
+        ml = model_lines[i] if model_lines is not None else None
+        m = model_fields(ml) if ml is not None else None
+        if kind == "percent":
+            a = c[2]
+            is_bytes = isinstance(t, bytes)
+            impl_line, lint, acc, typ = impl_percent(t, a)
+            py = cpython_percent(t, a) if safe_for_cpython(t) and safe_args(t, a) else ("skipped", "")
+            h = hist["percent"]
+            h["is_bytes"][int(is_bytes)] += 1
+            h["template_len"][min(len(t), 12)] = h["template_len"].get(min(len(t), 12), 0) + 1
+            ak = "tuple" if isinstance(a, tuple) else "dict" if isinstance(a, dict) else "scalar"
+            h["args_kind"][ak] = h["args_kind"].get(ak, 0) + 1
+            if ml is not None:
+                if impl_line != ml.split(" pyscan=")[0]:
+                    corr_mismatch.append((i, impl_line, ml, "Format.Percent.pa_check_chars vs PercentFormatString.from_pattern/lint/accept"))
+                else:
+                    validated += 1
+                if py[0] in ("ok", "raise") and m.get("pyraises") is not None:
+                    if (py[0] == "raise") != (m["pyraises"] == "1"):
+                        spec_mismatch.append((i, py, ml))
+                    else:
+                        spec_validated += 1
+            if lint is None:
+                failing.append((i, "checker crashed: " + impl_line, py, set()))
+                continue
+            kinds = set(lint) | set(acc)
+            documented = DOCUMENTED_LINT
+            nontrivial = "%" in (t.decode("latin-1") if is_bytes else t)
+            g = guards_percent(t, a, m) if m is not None else set()
+            dirs = CLAUSE_DIRECTIONS
+        else:
+            args, kwargs = c[2], c[3]
+            impl_line, fk, typ = impl_format(t, args, kwargs)
+            py = cpython_format(t, args, kwargs)
+            h = hist["format"]
+            h["template_len"][min(len(t), 12)] = h["template_len"].get(min(len(t), 12), 0) + 1
+            if ml is not None:
+                if impl_line != ml.split(" pyparse=")[0]:
+                    corr_mismatch.append((i, impl_line, ml, "Format.StrFormat.pa_format_check vs parse_format_string/_str_format_impl"))
+                else:
+                    validated += 1
+                v = m.get("verdict")
+                h["spec_verdicts"][v] = h["spec_verdicts"].get(v, 0) + 1
+                if (v == "raises" and py[0] != "raise") or (v == "fine" and py[0] != "ok") or v == "FUEL":
                     spec_mismatch.append((i, py, ml))
-        if lint is None:
-            failing.append((i, "checker crashed: " + impl_line, py, set()))
-            continue
-        reported = bool(lint or acc)
+                elif v in ("raises", "fine"):
+                    spec_validated += 1
+            if fk is None:
+                failing.append((i, "checker crashed: " + impl_line, py, set()))
+                continue
+            kinds = set(fk)
+            documented = FORMAT_LINT
+            nontrivial = "{" in t or "}" in t
+            g = guards_format(t, m) if m is not None else set()
+            dirs = FORMAT_CLAUSE_DIRECTIONS
+        reported = bool(kinds)
+        direct_reported[i] = reported
         if py[0] not in ("ok", "raise"):
             continue
-        verdict = ("raise" if py[0] == "raise" else "ok") + "/" + ("reported" if reported else "silent")
-        hist["verdicts"][verdict] = hist["verdicts"].get(verdict, 0) + 1
-        if "%" in (t.decode("latin-1") if is_bytes else t):
-            distinct.add((t, repr(a)))
-        g = guards_percent(t, a, m) if m is not None else set()
+        verdict = py[0] + "/" + ("reported" if reported else "silent")
+        h["verdicts"][verdict] = h["verdicts"].get(verdict, 0) + 1
+        if nontrivial:
+            distinct.add((kind, t, repr(c[2:])))
         if py[0] == "ok":
             type_checked += 1
             if typ != py[1]:
                 failing.append((i, f"inferred type {typ}, actual result type {py[1]}", py, set()))
         if py[0] == "raise" and not reported:
-            failing.append((i, "CPython raises, nothing reported", py, {c for c in g if "missed" in CLAUSE_DIRECTIONS[c]}))
+            failing.append((i, "CPython raises, nothing reported", py, {x for x in g if "missed" in dirs[x]}))
         elif py[0] == "ok" and reported:
-            kinds = set(lint) | set(acc)
-            if kinds <= DOCUMENTED_LINT:
+            if kinds <= documented:
                 hist["lint_only"] += 1
             else:
-                failing.append((i, "reported " + ",".join(sorted(kinds)) + " but CPython formats fine", py, {c for c in g if "extra" in CLAUSE_DIRECTIONS[c]}))
+                failing.append((i, "reported " + ",".join(sorted(kinds)) + " but CPython formats fine", py, {x for x in g if "extra" in dirs[x]}))
 
     def payload(i):
-        _, t, a, _ = cases[i]
-        return {"kind": "percent", "template": enc_case(t), "args": enc_case(a), "python": f"{t!r} % {a!r}"}
+        c = cases[i]
+        if c[0] == "percent":
+            return {"kind": "percent", "template": enc_case(c[1]), "args": enc_case(c[2]), "python": f"{c[1]!r} % {c[2]!r}"}
+        return {"kind": "format", "template": c[1], "args": enc_case(list(c[2])), "kwargs": enc_case(dict(c[3])),
+                "python": f"{c[1]!r}.format(*{c[2]!r}, **{c[3]!r})"}
 
-    known_ids = {f["id"] for f in lib.load_known_findings(PROP)["findings"]}
+    # end-to-end through NameCheckVisitor on a sample (corpus + every k-th case)
+    e2e_checked = 0
+    e2e_mismatch = []
+    if not replay:
+        step = max(1, len(cases) // (500 if tier == "quick" else 3000))
+        sample = [(i, cases[i]) for i in list(range(0, min(60, len(cases)))) + list(range(60, len(cases), step)) if i in direct_reported]
+        try:
+            e2e_checked, e2e_mismatch = end_to_end(sample, direct_reported)
+        except Exception as ex:  # noqa
+            rep.harness_error(f"end-to-end stream failed: {type(ex).__name__}: {ex}")
+
+    findings = lib.load_known_findings(PROP)["findings"]
+    known_ids = {f["id"] for f in findings}
+    corr_idx = {ci for ci, _, _, _ in corr_mismatch}
     new_failures = []
     for i, what, py, clauses in failing:
         # attribute only if the case falls under a listed clause AND the implementation behaved as the model predicts
-        agrees = model_lines is not None and not any(ci == i for ci, _, _ in corr_mismatch)
-        cl = sorted(c for c in clauses if c in known_ids)
+        agrees = model_lines is not None and i not in corr_idx
+        cl = sorted(x for x in clauses if x in known_ids)
         if cl and agrees:
-            for c in cl[:1]:
-                hist["known"][c] = hist["known"].get(c, 0) + 1
-                rep.known(c, next(f["what"] for f in lib.load_known_findings(PROP)["findings"] if f["id"] == c))
+            hist["known"][cl[0]] = hist["known"].get(cl[0], 0) + 1
+            rep.known(cl[0], next(f["what"] for f in findings if f["id"] == cl[0]))
         else:
             new_failures.append((i, what, py))
     for i, what, py in new_failures[:10]:
@@ -589,11 +871,15 @@ def run(tier: str, replay: str | None = None):
     if spec_mismatch:
         i, py, ml = spec_mismatch[0]
         # the specification model disagrees with the interpreter: the harness is wrong, not pyanalyze
-        rep.harness_error(f"PyPercent.py_raises_chars disagrees with CPython on {cases[i][1]!r} % {cases[i][2]!r}: cpython={py} model={ml} ({len(spec_mismatch)} cases)")
+        rep.harness_error(f"specification model disagrees with CPython on {payload(i)['python']}: cpython={py} model={ml} ({len(spec_mismatch)} cases)")
     if corr_mismatch and not found_input:
-        i, il, ml = corr_mismatch[0]
-        rep.violation({"kind": "broken-correspondence", "correspondence": "Format.Percent.pa_check_chars vs PercentFormatString.from_pattern/lint/accept",
+        i, il, ml, name = corr_mismatch[0]
+        rep.violation({"kind": "broken-correspondence", "correspondence": name,
                        "input": payload(i), "observed": il, "model": ml, "mismatches": len(corr_mismatch)}, no_failing_input=True)
+    if e2e_mismatch and not found_input:
+        i, line, codes, want = e2e_mismatch[0]
+        rep.violation({"kind": "broken-correspondence", "correspondence": "direct calls (check_string_format/_str_format_impl) vs NameCheckVisitor end to end",
+                       "input": payload(i), "observed": {"statement": line, "codes": codes}, "expected_reported": want, "mismatches": len(e2e_mismatch)}, no_failing_input=True)
     if broken_translation and not found_input:
         rep.violation({"kind": "broken-obligation", "theorem": "Gen/FormatRe.v (translator)", "detail": broken_translation}, no_failing_input=True)
     if proof is not None and not proof.ok and not found_input:
@@ -602,18 +888,20 @@ def run(tier: str, replay: str | None = None):
     rep.coverage.update(
         evaluations=len(cases),
         distinct_nontrivial=len(distinct),
-        rule="a case = (template, literal args); non-trivial = the template contains a '%' ; streams: corpus, structured (specifier-built templates with matching/perturbed args), "
-        "exhaustive templates over a 14-symbol alphabet (text and bytes), random longer templates over a 40-symbol alphabet",
-        samples=[payload(i)["python"] for i in range(0, min(len(cases), 2000), 400)],
+        rule="a case = (template, literal args); non-trivial = the template contains '%' (resp. a brace); streams: corpus, structured (specifier/field-built templates with "
+        "matching and perturbed args), exhaustive short templates over a 14-symbol (%) / 11-symbol (format) alphabet, random longer templates",
+        samples=[payload(i)["python"] for i in range(0, len(cases), max(1, len(cases) // 6))][:8],
         traces_validated_against_impl=validated,
-        spec_validated_against_cpython=sum(hist["verdicts"].values()) - len(spec_mismatch),
+        spec_validated_against_cpython=spec_validated,
         result_types_checked=type_checked,
+        end_to_end_statements=e2e_checked,
+        end_to_end_mismatches=len(e2e_mismatch),
         input_distribution=hist,
         correspondence_mismatches=len(corr_mismatch),
         spec_mismatches=len(spec_mismatch),
-        exhaustive_template_length=(3 if tier == "quick" else 5),
+        exhaustive_template_length={"percent": (4 if tier == "quick" else 5), "format": (4 if tier == "quick" else 5)},
     )
-    rep.assumptions = ["CPython 3.12 `%` operator as oracle", "translator harness/translate/formatre.py", "extraction (ExtrOcamlBasic)"]
+    rep.assumptions = ["CPython 3.12 `%` operator and str.format as oracle", "translator harness/translate/formatre.py", "extraction (ExtrOcamlBasic)"]
     return rep.finish(
         proof,
         "coq_makefile + make theories/Properties/C17.vo; coqc theories/Properties/C17.v (Print Assumptions)" + ("; coqchk -o" if tier == "thorough" else ""),
